@@ -47,11 +47,6 @@ properties of its resolved default specifier, in dictionary order) and `cls._fin
 structure ClassInfo where
   defaults : List (String × List String)
   finals : List String
-  /-- Not a property of the class but of the resolution code (carried here for convenience; the driver
-  sets it from `Gen/SpecTable.lean`): does `dfs` visit, for a modifying specifier, the specifiers of *all*
-  the properties it modifies (`true`), or only of the last one, as the dictionary comprehension
-  `modifying_inv = {spec: prop ...}` of the source does (`false`)? -/
-  orderAllModified : Bool := false
 deriving DecidableEq, Repr, Inhabited
 
 /-- Identity of a specifier object during one resolution.  After the duplicate-name check user
@@ -176,23 +171,22 @@ def depsOf (C : ClassInfo) (S : List Spec) : Node → List String
     | none => []
   | .dflt p => (get C.defaults p).getD []
 
-/-- `modifying_inv = {spec: prop for prop, spec in modifying.items()}` then `modifying_inv[n]`. -/
-def modInv (modifier : List (String × Node)) (n : Node) : Option String :=
-  modifier.foldl (fun acc pm => if pm.2 = n then some pm.1 else acc) none
-
-/-- The properties whose specifiers `dfs` visits for a modifying specifier (`modifying_inv[spec]`). -/
-def modProps (all : Bool) (modifier : List (String × Node)) (n : Node) : List String :=
-  if all then (modifier.filter (fun pm => pm.2 = n)).map (·.1) else (modInv modifier n).toList
+/-- `modifying_inv[n]`, where `modifying_inv = defaultdict(list)` is filled by
+`for prop, spec in modifying.items(): modifying_inv[spec].append(prop)`: the properties that the
+specifier `n` modifies, in the order of the `modifying` dictionary. -/
+def modProps (modifier : List (String × Node)) (n : Node) : List String :=
+  (modifier.filter (fun pm => pm.2 = n)).map (·.1)
 
 /-- The successive `child` look-ups made by `dfs(spec)`: one per required property
 (`modifying.get(dep)` or else `properties.get(dep)`; `none` = "is not specified"), then, for a
-specifier that modifies properties, the specifiers of those properties. -/
-def steps (all : Bool) (depsOf : Node → List String) (assign modifier : List (String × Node)) (n : Node) :
+specifier that modifies properties, the specifiers of all those properties
+(`for prop in modifying_inv[spec]: dfs(properties[prop])`). -/
+def steps (depsOf : Node → List String) (assign modifier : List (String × Node)) (n : Node) :
     List (Option Node) :=
   (depsOf n).map (fun dep => match get modifier dep with
     | some m => some m
     | none => get assign dep)
-  ++ (modProps all modifier n).map (fun p => get assign p)
+  ++ (modProps modifier n).map (fun p => get assign p)
 
 /-- `spec._dfs_state` for every specifier, and `order`. -/
 structure DState where
@@ -264,7 +258,7 @@ def assignPhase (C : ClassInfo) (S : List Spec) : Except Err Pre :=
 
 /-- The look-ups of `dfs` for the dictionaries computed by `assignPhase`. -/
 def stepsOf (C : ClassInfo) (S : List Spec) (pre : Pre) : Node → List (Option Node) :=
-  steps C.orderAllModified (depsOf C S) pre.assign pre.modifier
+  steps (depsOf C S) pre.assign pre.modifier
 
 /-- The topological sort: `for spec in specifiers: dfs(spec)`. The recursion depth of the source is
 bounded by the number of specifiers (`Scenic.C06.resolve_never_fuel`). -/
